@@ -2,8 +2,8 @@
    line on stdin, prints one result per line on stdout.  Subcommand = argv[1]. *)
 open Model
 
-let rec nat_of_int n = if n <= 0 then O else S (nat_of_int (n - 1))
-let rec int_of_nat = function O -> 0 | S n -> 1 + int_of_nat n
+let nat_of_int n = let r = ref O in for _ = 1 to n do r := S !r done; !r
+let int_of_nat n = let rec go acc = function O -> acc | S m -> go (acc + 1) m in go 0 n
 
 let split_on c s = String.split_on_char c s
 let words s = List.filter (fun x -> x <> "") (split_on ' ' s)
@@ -83,11 +83,335 @@ let run_state_line refmode line =
       Buffer.contents buf
   | _ -> failwith "bad state line"
 
+
+(* ---------------- numbers, strings ---------------- *)
+
+let n_of_int (i : int) : n = N.of_nat (nat_of_int i)
+let ten = n_of_int 10
+let n_of_decimal (s : string) : n =
+  if s = "M" then usize_max else begin
+    let acc = ref N0 in
+    String.iter (fun c -> acc := N.add (N.mul !acc ten) (n_of_int (Char.code c - 48))) s;
+    !acc
+  end
+let bytes_of_hex (h : string) : nat list =
+  if h = "-" then [] else
+  List.init (String.length h / 2) (fun i -> nat_of_int (int_of_string ("0x" ^ String.sub h (2 * i) 2)))
+let hex_of_bytes (l : nat list) : string =
+  if l = [] then "-" else String.concat "" (List.map (fun b -> Printf.sprintf "%02x" (int_of_nat b)) l)
+let string_of_n (x : n) : string =
+  if N.eqb x usize_max then "M"
+  else String.concat "" (List.map (fun b -> String.make 1 (Char.chr (int_of_nat b))) (push_usize x))
+let us (v : val0) = string_of_val v
+
+(* ---------------- tree parser (tokens written by harness/src/util.rs) ---------------- *)
+
+let assertion_of_code = function
+  | 0 -> StartText | 1 -> EndText | 2 -> StartLine false | 3 -> StartLine true
+  | 4 -> EndLine false | 5 -> EndLine true | 6 -> LeftWordBoundary | 7 -> RightWordBoundary
+  | 8 -> WordBoundary | _ -> NotWordBoundary
+let code_of_assertion = function
+  | StartText -> 0 | EndText -> 1 | StartLine false -> 2 | StartLine true -> 3
+  | EndLine false -> 4 | EndLine true -> 5 | LeftWordBoundary -> 6 | RightWordBoundary -> 7
+  | WordBoundary -> 8 | NotWordBoundary -> 9
+
+let rest s k = String.sub s k (String.length s - k)
+
+let parse_tree (s : string) : expr =
+  let toks = ref (words s) in
+  let next () = match !toks with x :: r -> toks := r; x | [] -> failwith "tree: unexpected end" in
+  let rec go () : expr =
+    let tk = next () in
+    let c = tk.[0] in
+    let arg = rest tk 1 in
+    match c with
+    | 'E' -> Empty
+    | 'Y' -> Any (arg = "1")
+    | 'S' -> Assertion (assertion_of_code (int_of_string arg))
+    | 'L' -> (match split_on ':' arg with
+              | [h; ci] -> Literal (bytes_of_hex h, ci = "1")
+              | _ -> failwith "tree: L")
+    | 'C' when arg <> "G" -> let n = int_of_string arg in Concat (List.init n (fun _ -> go ()))
+    | 'C' -> ContinueFromPreviousMatchEnd
+    | 'O' -> let n = int_of_string arg in Alt (List.init n (fun _ -> go ()))
+    | 'G' -> Group (go ())
+    | 'K' when arg = "O" -> KeepOut
+    | 'K' -> let la = (match arg with "0" -> LookAhead | "1" -> LookAheadNeg | "2" -> LookBehind | _ -> LookBehindNeg) in
+             let c = go () in LookAround (c, la)
+    | 'R' -> (match split_on ':' arg with
+              | [lo; hi; gr] -> let c = go () in Repeat (c, n_of_decimal lo, n_of_decimal hi, gr = "1")
+              | _ -> failwith "tree: R")
+    | 'D' -> (match split_on ':' arg with
+              | [h; size; ci; kind] ->
+                  let k = if kind = "Z" then DNlStarEnd
+                    else if kind = "e" then DClass []
+                    else DClass (List.map (fun x -> nat_of_int (int_of_string x))
+                                   (List.filter (fun x -> x <> "") (split_on '.' (rest kind 1)))) in
+                  Delegate (bytes_of_hex h, n_of_decimal size, ci = "1", k)
+              | _ -> failwith "tree: D")
+    | 'B' -> Backref (n_of_decimal arg)
+    | 'T' -> AtomicGroup (go ())
+    | 'X' -> BackrefExistsCondition (n_of_decimal arg)
+    | 'Q' -> let c = go () in let y = go () in let n = go () in Conditional (c, y, n)
+    | 'U' -> SubroutineCall (n_of_decimal arg)
+    | _ -> failwith ("tree: bad token " ^ tk) in
+  let e = go () in
+  if !toks <> [] then failwith "tree: trailing tokens";
+  e
+
+let parse_bs (s : string) : n -> bool =
+  let l = if s = "-" then [] else List.map n_of_decimal (split_on ',' s) in
+  fun x -> List.exists (fun y -> N.eqb x y) l
+
+(* ---------------- printers shared with the harness ---------------- *)
+
+let insn_string (i : insn) : string =
+  let d = int_of_nat in
+  match i with
+  | IEnd -> "End" | IAny -> "Any" | IAnyNoNL -> "AnyNoNL"
+  | IAssertion a -> Printf.sprintf "Assert(%d)" (code_of_assertion a)
+  | ILit v -> Printf.sprintf "Lit(%s)" (hex_of_bytes v)
+  | ISplit (x, y) -> Printf.sprintf "Split(%d,%d)" (d x) (d y)
+  | IJmp t -> Printf.sprintf "Jmp(%d)" (d t)
+  | ISave s -> Printf.sprintf "Save(%d)" (d s)
+  | ISave0 s -> Printf.sprintf "Save0(%d)" (d s)
+  | IRestore s -> Printf.sprintf "Restore(%d)" (d s)
+  | IRepeatGr (lo, hi, nx, r) -> Printf.sprintf "RepeatGr(%s,%s,%d,%d)" (string_of_n lo) (string_of_n hi) (d nx) (d r)
+  | IRepeatNg (lo, hi, nx, r) -> Printf.sprintf "RepeatNg(%s,%s,%d,%d)" (string_of_n lo) (string_of_n hi) (d nx) (d r)
+  | IRepeatEpsilonGr (lo, nx, r, c) -> Printf.sprintf "RepeatEpsilonGr(%s,%d,%d,%d)" (string_of_n lo) (d nx) (d r) (d c)
+  | IRepeatEpsilonNg (lo, nx, r, c) -> Printf.sprintf "RepeatEpsilonNg(%s,%d,%d,%d)" (string_of_n lo) (d nx) (d r) (d c)
+  | IFailNegativeLookAround -> "FailNLA"
+  | IGoBack n -> Printf.sprintf "GoBack(%s)" (string_of_n n)
+  | IBackref s -> Printf.sprintf "Backref(%d)" (d s)
+  | IBeginAtomic -> "BeginAtomic" | IEndAtomic -> "EndAtomic"
+  | IDelegate (es, sg, eg) ->
+      let pat = match delegate_pattern es with Some b -> hex_of_bytes b | None -> "TOSTR-PANIC" in
+      Printf.sprintf "Delegate(%s,%d,%d)" pat (d sg) (d eg)
+  | IContinueFromPreviousMatchEnd -> "ContG"
+  | IBackrefExistsCondition g -> Printf.sprintf "BEC(%s)" (string_of_n g)
+
+let facts_string bs e =
+  csv (fun f -> Printf.sprintf "%d:%d:%s:%d:%d" (int_of_nat f.f_start) (int_of_nat f.f_end)
+                  (string_of_n f.f_min) (if f.f_const then 1 else 0) (if f.f_hard then 1 else 0))
+    (facts bs O (wrap e))
+
+let newerr_string = function
+  | NAnalyze AInvalidBackref -> "err:Compile:InvalidBackref"
+  | NAnalyze AFeatureNotYetSupported -> "err:Compile:FeatureNotYetSupported"
+  | NAnalyze APanicEmptyAlt -> "PANIC"
+  | NCompile CLookBehindNotConst -> "err:Compile:LookBehindNotConst"
+  | NCompile CFeatureNotYetSupported -> "err:Compile:FeatureNotYetSupported"
+
+(* delegated blocks that contain an unbounded repeat whose body can match empty: the class in
+   which regex-automata's empty-iteration rule differs from the VM's (known finding F1) *)
+let rec has_nullable_star (e : expr) : bool =
+  match e with
+  | Repeat (c, _, hi, _) -> (N.eqb hi usize_max && N.eqb (min_size c) N0) || has_nullable_star c
+  | Concat es | Alt es -> List.exists has_nullable_star es
+  | Group c | LookAround (c, _) | AtomicGroup c -> has_nullable_star c
+  | Conditional (c, y, n) -> has_nullable_star c || has_nullable_star y || has_nullable_star n
+  | _ -> false
+let f1_risk (r : regex) : bool =
+  match r with
+  | RWrap (e, _) -> has_nullable_star e
+  | RFancy (p, _) -> List.exists (function IDelegate (es, _, _) -> List.exists has_nullable_star es | _ -> false) p.p_body
+
+(* mode prog: in "tree \t bs" *)
+let prog_line line =
+  match split_on '\t' line with
+  | tree :: bs :: _ ->
+      let e = parse_tree tree and bs = parse_bs bs in
+      (match regex_new bs e with
+       | Inl er ->
+           let fs = (match er with NAnalyze _ -> "" | _ -> "\tfacts=" ^ facts_string bs e) in
+           "new=" ^ newerr_string er ^ fs
+       | Inr (RWrap (_, n)) -> Printf.sprintf "new=wrap:%d\tfacts=%s" (int_of_nat n) (facts_string bs e)
+       | Inr (RFancy (p, n) as r) ->
+           Printf.sprintf "new=fancy:%d\tfacts=%s\tprog=%s\tnsaves=%d\tf1=%d" (int_of_nat n) (facts_string bs e)
+             (String.concat " " (List.map insn_string p.p_body)) (int_of_nat p.p_nsaves)
+             (if f1_risk r then 1 else 0))
+  | _ -> failwith "prog: bad line"
+
+let fuel_big = nat_of_int 400000
+let max_stack_nat = nat_of_int 1000000
+let limit_of s = if s = "-" then None else Some (n_of_decimal s)
+
+let string_of_outcome = function
+  | RMatch sv -> "M:" ^ csv us sv
+  | RNoMatch -> "N"
+  | RErrStack -> "Runtime:StackOverflow"
+  | RErrLimit -> "Runtime:BacktrackLimitExceeded"
+  | RPanic -> "PANIC"
+  | ROutOfFuel -> "FUEL"
+
+(* regex cache keyed by tree+bs *)
+let cache : (string, (newerr, regex) sum) Hashtbl.t = Hashtbl.create 64
+let get_regex tree bs =
+  let key = tree ^ "|" ^ bs in
+  match Hashtbl.find_opt cache key with
+  | Some r -> r
+  | None ->
+      if Hashtbl.length cache > 5000 then Hashtbl.reset cache;
+      let r = regex_new (parse_bs bs) (parse_tree tree) in
+      Hashtbl.add cache key r; r
+
+(* mode run: in "tree bs text pos flags limit" *)
+let run_line line =
+  match split_on '\t' line with
+  | [tree; bs; text; pos; flags; limit] ->
+      (match get_regex tree bs with
+       | Inr (RFancy (p, _)) ->
+           let cx = { c_text = bytes_of_hex text; c_pos = nat_of_int (int_of_string pos); c_skipped = (flags = "1") } in
+           let (o, st) = vm_run cx p max_stack_nat (limit_of limit) fuel_big in
+           Printf.sprintf "res=%s\tstats=%s:%s:%d" (string_of_outcome o)
+             (string_of_n st.n_insn) (string_of_n st.n_back) (int_of_nat st.peak)
+       | _ -> "res=NOPROG")
+  | _ -> failwith "run: bad line"
+
+(* mode sem: the reference semantics; in "tree bs text pos flags"; out = saves or N *)
+let sem_line line =
+  match split_on '\t' line with
+  | tree :: _bs :: text :: pos :: flags :: _ ->
+      let e = parse_tree tree in
+      let t = bytes_of_hex text in
+      let cx = { c_text = t; c_pos = nat_of_int (int_of_string pos); c_skipped = (flags = "1") } in
+      (match search cx e (S (length t)) with
+       | Some caps -> "M:" ^ csv us caps
+       | None -> "N")
+  | _ -> failwith "sem: bad line"
+
+(* ---------------- api ---------------- *)
+
+let span a b = Printf.sprintf "%s-%s" (us a) (us b)
+let nspan a b = Printf.sprintf "%d-%d" (int_of_nat a) (int_of_nat b)
+let rterr_string = function
+  | EStack -> "ERR:Runtime:StackOverflow" | ELimit -> "ERR:Runtime:BacktrackLimitExceeded"
+  | EPanicked -> "PANIC" | EFuel -> "FUEL"
+
+let rec firstn_l n l = if n <= 0 then [] else match l with [] -> [] | x :: r -> x :: firstn_l (n - 1) r
+
+let caps_string ngroups (saves : val0 list) =
+  let sv = firstn_l (2 * ngroups) saves in
+  let rec go i acc = if i >= ngroups then List.rev acc else
+    go (i + 1) ((match cap_get sv (nat_of_int i) with Some (a, b) -> span a b | None -> "-") :: acc) in
+  String.concat "," (go 0 [])
+
+let join_or_dash l = if l = [] then "-" else String.concat ";" l
+
+let piece_string = function
+  | PcOk (a, b) -> nspan a b
+  | PcErr e -> rterr_string e
+  | PcPanic -> "PANIC"
+
+let api_probe (r : regex) (limit : n option) (names : (nat list * nat) list) (t : nat list) (p : string) : string =
+  let ng = int_of_nat (regex_ngroups r) in
+  let srch = regex_search r max_stack_nat limit fuel_big t in
+  let tl = List.length t in
+  let bound = nat_of_int (tl + 6) in
+  match split_on ':' p with
+  | ["is_match"] -> (match srch O false with SSome _ -> "1" | SNone -> "0" | SErr e -> rterr_string e)
+  | ["find"; pos] ->
+      (match srch (nat_of_int (int_of_string pos)) false with
+       | SSome (a :: b :: _) -> span a b | SSome _ -> "PANIC" | SNone -> "none" | SErr e -> rterr_string e)
+  | ["caps"; pos] ->
+      (match srch (nat_of_int (int_of_string pos)) false with
+       | SSome sv -> caps_string ng sv | SNone -> "none" | SErr e -> rterr_string e)
+  | ["find_iter"] ->
+      join_or_dash (List.map (function ItOk (a, b, _) -> nspan a b | ItErr e -> rterr_string e)
+                      (collect t srch bound m_init))
+  | ["caps_iter"] ->
+      join_or_dash (List.map (function ItOk (_, _, sv) -> caps_string ng sv | ItErr e -> rterr_string e)
+                      (collect t srch bound m_init))
+  | ["split"] -> join_or_dash (List.map piece_string (split_collect t srch bound sp_init))
+  | ["splitn"; k] ->
+      join_or_dash (List.map piece_string
+        (splitn_collect t srch bound { sn_s = sp_init; sn_limit = nat_of_int (int_of_string k) }))
+  | ["replacen"; lim; kind; arg] ->
+      let argb = bytes_of_hex arg in
+      let rep (sv : val0 list) : nat list =
+        match kind with
+        | "T" -> if List.exists (fun b -> int_of_nat b = 36) argb
+                 then expansion expander_default argb { cp_text = t; cp_saves = firstn_l (2 * ng) sv; cp_names = names }
+                 else argb
+        | "N" | "C" -> argb
+        | _ -> (match cap_get sv O with
+                | Some (V a, V b) -> firstn_l (int_of_nat b - int_of_nat a) (skipn a t)
+                | _ -> []) in
+      (match try_replacen t srch rep (nat_of_int (int_of_string lim)) with
+       | RBorrowed -> "B" | ROwned s -> "O:" ^ hex_of_bytes s | RErr e -> rterr_string e | RPanicR -> "PANIC")
+  | ["meta"] ->
+      let nm = List.sort compare (List.map (fun (n, i) -> (int_of_nat i, hex_of_bytes n)) names) in
+      Printf.sprintf "len=%d;n=%d;names=%s" ng ng
+        (if nm = [] then "-" else String.concat "," (List.map (fun (i, h) -> Printf.sprintf "%d:%s" i h) nm))
+  | _ -> failwith ("bad probe " ^ p)
+
+let parse_names s : (nat list * nat) list =
+  if s = "-" then [] else
+  List.map (fun x -> match split_on ':' x with
+    | [i; h] -> (bytes_of_hex h, nat_of_int (int_of_string i)) | _ -> failwith "names") (split_on ',' s)
+
+(* mode api: in "tree bs names text limit probes" *)
+let api_line line =
+  match split_on '\t' line with
+  | [tree; bs; names; text; limit; probes] ->
+      (match get_regex tree bs with
+       | Inl er -> "new=" ^ newerr_string er
+       | Inr r ->
+           let t = bytes_of_hex text and names = parse_names names in
+           let hd = (match r with RWrap _ -> "new=wrap" | RFancy _ -> "new=fancy") in
+           String.concat "\t" (hd :: List.map (api_probe r (limit_of limit) names t)
+                                        (List.filter (fun x -> x <> "") (split_on ' ' probes))))
+  | _ -> failwith "api: bad line"
+
+(* ---------------- expand / escape / oracle ---------------- *)
+
+let xerr_string = function
+  | XNamedBackrefOnly -> "Compile:NamedBackrefOnly" | XInvalidBackref -> "Compile:InvalidBackref"
+  | XParseError -> "Parse:GeneralParseError:0"
+
+(* in: kind template text saves names caplen *)
+let expand_line line =
+  match split_on '\t' line with
+  | [kind; template; text; saves; names; caplen] ->
+      let x = if kind = "p" then expander_python else expander_default in
+      let tp = bytes_of_hex template in
+      let sv = List.map val_of_string (split_on ',' saves) in
+      let nm = parse_names names in
+      let c = { cp_text = bytes_of_hex text; cp_saves = sv; cp_names = nm } in
+      let e = expansion x tp c in
+      let chk = (match check x tp nm (nat_of_int (int_of_string caplen)) with None -> "ok" | Some er -> xerr_string er) in
+      let (esc, borrowed) = x_escape x tp in
+      let back = expansion x esc c in
+      Printf.sprintf "exp=%s\tcheck=%s\tesc=%s:%d:%d" (hex_of_bytes e) chk (hex_of_bytes esc)
+        (if borrowed then 1 else 0) (if back = tp then 1 else 0)
+  | _ -> failwith "expand: bad line"
+
+let escape_line line =
+  let s = bytes_of_hex (String.trim line) in
+  let (e, borrowed) = escape s in
+  Printf.sprintf "esc=%s:%d" (hex_of_bytes e) (if borrowed then 1 else 0)
+
+let oracle_line line =
+  (* in: alphabet csv; out: words and fold classes according to the model tables *)
+  let alpha = List.map int_of_string (split_on ',' (String.trim line)) in
+  let words = List.filter (fun c -> is_word_cp (nat_of_int c)) alpha in
+  let folds = List.concat_map (fun a -> List.filter_map (fun b ->
+      if a <> b && int_of_nat (fold_cp (nat_of_int a)) = int_of_nat (fold_cp (nat_of_int b))
+      then Some (Printf.sprintf "%d~%d" a b) else None) alpha) alpha in
+  Printf.sprintf "words=%s\tfolds=%s" (String.concat "," (List.map string_of_int words)) (String.concat "," folds)
+
 let () =
   let mode = if Array.length Sys.argv > 1 then Sys.argv.(1) else "" in
   let f = match mode with
     | "state" -> run_state_line false
     | "stateref" -> run_state_line true
+    | "prog" -> prog_line
+    | "run" -> run_line
+    | "sem" -> sem_line
+    | "api" -> api_line
+    | "expand" -> expand_line
+    | "escape" -> escape_line
+    | "oracle" -> oracle_line
     | _ -> prerr_endline "usage: frmodel <mode>"; exit 2 in
   try
     while true do
